@@ -145,7 +145,11 @@ def find_in_scope(
                 tmp_var = check_scope(child, var_name_lower, filter_public)
                 if tmp_var is not None:
                     return tmp_var
-            is_private = child.vis < 0 or (local_scope.def_vis < 0 and child.vis <= 0)
+            def_vis = local_scope.def_vis
+            if local_scope.name.startswith("#GEN_INT") and local_scope.parent:
+                # Unnamed interface block: accessibility defaults to the host's
+                def_vis = local_scope.parent.def_vis
+            is_private = child.vis < 0 or (def_vis < 0 and child.vis <= 0)
             if filter_public and is_private:
                 continue
             if child.name.lower() == var_name_lower:
